@@ -895,8 +895,14 @@ class Interp:
         # consumer may resume us, or close the generator (GeneratorExit) at this point
         self.suspend(st, f"yield@{node.lineno}", cancellable=False)
         names = ["resumed", "closed"]
-        if self.eng.choose(st, 2, f"yield@{node.lineno}", names) == 1:
+        # a generator used as a context manager (contextlib.[async]contextmanager) gets whatever the body of the
+        # `with` statement raised thrown in at its yield: the contract lists the classes (`yield_throws`)
+        throws = list(getattr(self.contract, "yield_throws", []) or []) if self.depth == 0 else []
+        k = self.eng.choose(st, 2 + len(throws), f"yield@{node.lineno}", names + [t.rsplit(".", 1)[-1] for t in throws])
+        if k == 1:
             raise PyRaise(VExc("GeneratorExit", tag={"at": self.site(node)}))
+        if k >= 2:
+            raise PyRaise(VExc(throws[k - 2], tag={"at": self.site(node), "thrown_at_yield": True}))
         return NONE
 
     def e_Tuple(self, st, node):
@@ -1122,7 +1128,15 @@ class Interp:
             ev.data["result"] = res
             return res
         if c is None and key not in eng.reg.inline_ok:
-            raise Unsupported(f"{self.site(node)}: callee {key} has neither contract nor inline permission")
+            # a repository helper without a sidecar contract (typically one that a refactoring has just extracted): its
+            # REAL body is inlined - always sound, it is the most precise contract there is - unless it is a generator.
+            # Recorded per function in the evidence (`helpers_inlined_without_contract`).
+            fi = eng.repo.func(eng.tree_name(key))
+            if fi is None or any(isinstance(n, (ast.Yield, ast.YieldFrom)) for n in ast.walk(fi.node)):
+                raise Unsupported(f"{self.site(node)}: callee {key} has neither contract nor inline permission")
+            eng.stats.setdefault("auto_inlined", [])
+            if key not in eng.stats["auto_inlined"]:
+                eng.stats["auto_inlined"].append(key)
         return self.inline_call(st, key, self_v, args, kwargs, node)
 
     def inline_call(self, st, key, self_v, args, kwargs, node) -> V:
